@@ -171,7 +171,7 @@ Proof. intros Hg Ho Hal. pose proof (tlen_facts l Hg) as (T1 & T32 & _). destruc
 Section Step.
 Variables (F : flavour) (pinv : Z -> Z -> fl_state F -> Prop).
 Hypothesis FK : flavour_ok F pinv.
-Variables (m : mode) (rv : Z -> Z -> Z).
+Variables (m : mode) (rv : Z -> Z -> list Z -> Z).
 
 (* rebuilding the relation when only the publisher part of the state changed *)
 Lemma sys_log_mk p im asm o : sys_log (mkSys (F := F) p im asm o) = ps_log (fl_pub F p).
